@@ -524,6 +524,23 @@ def c10_case(rec, hub, rng, tier):
             xs = max(float(np.max(np.abs(res[solver]["inflow"]))) * float(np.max(S.dt_of(cfg["items"]))), float(np.max(np.abs(pres))))
             cmp(f"SD/{solver}->ID:stock", idm2.stock.values, pres, "inflow-driven-does-not-reproduce-the-prescribed-stock", scale=xs,
                 negative_inflow=bool(np.any(res[solver]["inflow"] < 0)))
+        # the solver switched on a USED object: computed with one solver for another stock, then given the stock above and the other
+        # solver - every result is that of a fresh object with that solver
+        first_s, then_s = ("manual", "lapack") if rng.random() < 0.5 else ("lapack", "manual")
+        try:
+            sd_sw = make_stock(fd, cfg, "StockDrivenDSM", solver=first_s, lm=build_lm(fd, cfg), stock=np.asarray(pres, dtype=float) * rng.uniform(0.4, 1.6, size=cfg["shape"]) + 1.0)
+            sd_sw.compute()
+            sd_sw.stock.values[...] = pres
+            sd_sw.solver = then_s
+            sd_sw.compute()
+            Qs = S.results_of(sd_sw)
+            xs_sw = max(float(np.max(np.abs(res[then_s]["inflow"]))), 1e-300)
+            for q_ in ("inflow", "outflow", "outflow_by_cohort"):
+                cmp(f"solver-switched-on-a-used-object:{q_}", Qs[q_], res[then_s][q_], "used-object-with-the-solver-switched-differs-from-a-fresh-object", scale=xs_sw, quantity=q_, first_solver=first_s, then_solver=then_s)
+            cmp("solver-switched-on-a-used-object:stock_by_cohort", Qs["stock_by_cohort"], res[then_s]["stock_by_cohort"], "used-object-with-the-solver-switched-differs-from-a-fresh-object", scale=max(float(np.max(np.abs(pres))), 1e-300),
+                quantity="stock_by_cohort", first_solver=first_s, then_solver=then_s)
+        except Exception as e:
+            rec.violation(M10, "solver-switch-on-a-used-object-raised", dict(model=cfg["model"], exc=repr(e)[:200], first_solver=first_s, then_solver=then_s))
         # labels of very different magnitude side by side (tonnes of steel beside grams of a trace metal), stocks that also shrink:
         # every label is the inverse of its own inflow-driven run, judged on its OWN scale
         rest_n = int(np.prod(cfg["shape"][1:])) if len(cfg["shape"]) > 1 else 1
